@@ -6,7 +6,7 @@ CONSTANTS
   NN = 2
   Horizon = 0
   Mode = "c18"
-  Pol = "none"
+  Pol = "losing"
   NotifyDown = TRUE
   MaxTx = 2
   PGossip = FALSE
